@@ -41,7 +41,11 @@ def build_cell(kind, u, p):
     head = pre + put_varint(p) + (put_varint(1) if kind == "table" else b"")
     local = payload[:b_spec]
     npages = sp[2]
-    cell = head + local + (struct.pack(">I", 10) if has_ov else b"")
+    # the chain is linked through page numbers that do not ascend (SQLite takes overflow pages from the freelist in any
+    # order): chain position k lives on page 10 + (k xor 1), so following the links is the only way to reassemble
+    def pno(k):
+        return 10 + ((k ^ 1) if (k ^ 1) < npages else k)
+    cell = head + local + (struct.pack(">I", pno(0)) if has_ov else b"")
     start = 12      # (a cell with the largest local payload, u-35 bytes, must still fit on the page)
     page = bytearray(u)
     if start + len(cell) > u:
@@ -51,8 +55,9 @@ def build_cell(kind, u, p):
 
     def page_fn(n):
         k = n - 10
+        k = (k ^ 1) if (k ^ 1) < npages else k
         chunk = rest[k * (u - 4):(k + 1) * (u - 4)]
-        nxt = n + 1 if (k + 1) * (u - 4) < len(rest) else 0
+        nxt = pno(k + 1) if (k + 1) * (u - 4) < len(rest) else 0
         return struct.pack(">I", nxt) + chunk + b"\x00" * (u - 4 - len(chunk))
 
     # child page for the index interior cell: an empty index leaf
@@ -113,7 +118,11 @@ def wide_header_cell(kind, u, ncols):
         b_loc = k if k <= limit else m
     pre = struct.pack(">I", 2) if kind == "indexinterior" else b""
     head = pre + put_varint(p) + (put_varint(1) if kind == "table" else b"")
-    cell = head + payload[:b_loc] + (struct.pack(">I", 10) if b_loc < p else b"")
+    npages = -(-(p - b_loc) // (u - 4))
+
+    def pno(k):      # (non-ascending chain page numbers, as in build_cell)
+        return 10 + ((k ^ 1) if (k ^ 1) < npages else k)
+    cell = head + payload[:b_loc] + (struct.pack(">I", pno(0)) if b_loc < p else b"")
     start = 12      # (a cell with the largest local payload, u-35 bytes, must still fit on the page)
     if start + len(cell) > u:
         return None
@@ -123,8 +132,9 @@ def wide_header_cell(kind, u, ncols):
 
     def page_fn(n):
         k = n - 10
+        k = (k ^ 1) if (k ^ 1) < npages else k
         chunk = rest[k * (u - 4):(k + 1) * (u - 4)]
-        nxt = n + 1 if (k + 1) * (u - 4) < len(rest) else 0
+        nxt = pno(k + 1) if (k + 1) * (u - 4) < len(rest) else 0
         return struct.pack(">I", nxt) + chunk + b"\x00" * (u - 4 - len(chunk))
     leaf = bytearray(u)
     leaf[0] = 0x0A
